@@ -284,6 +284,10 @@ def call_external(h: Any, name: str, args: List[AV], kwargs: Dict[str, AV], node
         h.regex_module[t.id] = short.split(".")[0]
         return t
     if short == "iregexp_check.check":
+        k0 = h.json_kind(args[0]) if args else None
+        if not args or (k0 is not None and k0 != "str") or isinstance(args[0], (Inst, IntV, PyList, PyTuple, PyDict, EnumV)):
+            # A1: the checker is a compiled extension taking a str; anything else is a TypeError
+            raise h.raise_("TypeError", "argument 'pattern': expected str", node)
         r = ctx.choose(("iregexp_check", h.key_desc(args[0])), [True, False])
         ctx.log.append(("extcall", short, tuple(args), i.site(node)))
         return Const(r)
@@ -556,7 +560,7 @@ def call_method(h: Any, recv: AV, name: str, args: List[AV], kwargs: Dict[str, A
     if isinstance(recv, Const) and isinstance(recv.value, bytes) and name == "decode":
         return Const(recv.value.decode(*[_plain(a) for a in args]))
     if isinstance(recv, (SymStr, SymChar)) or (isinstance(recv, Sym) and name in ("startswith", "endswith", "lower", "upper", "strip", "split", "replace", "encode", "count", "find", "rfind", "join", "lstrip", "rstrip", "isdigit")):
-        if name in ("startswith", "endswith", "isdigit", "isalpha", "isspace", "isalnum"):
+        if name in ("startswith", "endswith", "isdigit", "isalpha", "isspace", "isalnum", "isprintable", "isascii", "isidentifier", "islower", "isupper", "isnumeric", "isdecimal"):
             key = ("strpred", name, recv.id, repr(args))
             ctx.atom_info[key] = {"kind": "strpred", "name": name, "recv": recv, "args": list(args)}
             return Const(ctx.choose(key, [False, True]))
